@@ -75,6 +75,15 @@ table! {
 pub fn helper(args: &[String]) -> i32 {
     match args.first().map(|s| s.as_str()) {
         Some("c08client") => c08::helper_main(&args[1..]),
+        Some("sleep") => {
+            // bystander: announce that we are up, then wait until killed or stdin closes
+            use std::io::{Read, Write};
+            let _ = std::io::stdout().write_all(b"x");
+            let _ = std::io::stdout().flush();
+            let mut b = [0u8; 1];
+            let _ = std::io::stdin().read(&mut b);
+            0
+        },
         #[cfg(not(feature = "inproc"))]
         Some("fdlist") => c11::helper_fdlist(),
         _ => {
